@@ -81,5 +81,16 @@ def main():
     return 0
 
 
+def _cleanup():
+    """scratch trees get a private numba cache each (~80 MB): drop it when the run is over"""
+    import shutil
+    args = [a for a in sys.argv[1:] if not a.startswith("-") and not a.isdigit()]
+    tree = Path(args[0] if args else "/repo").resolve()
+    if str(tree) != "/repo":
+        shutil.rmtree(Path("/verif/.cache/suite") / str(abs(hash(str(tree))) % 10**8), ignore_errors=True)
+
+
 if __name__ == "__main__":
-    sys.exit(main())
+    rc = main()
+    _cleanup()
+    sys.exit(rc)
